@@ -20,6 +20,7 @@ def pick(rng, seq, p=None):
 QUANT_FLAVOURS = [
     "normal", "uniform", "lognormal", "discrete", "discrete_small", "spike_low", "spike_mid", "spike_high", "two_spikes",
     "rounded", "zipf", "rare_equal", "int", "intfloat", "float32", "negative", "tinymag", "bigmag", "close4", "halfint",
+    "dominant", "epoch", "close10",
 ]
 QUANT_DEGENERATE = ["constant", "allnan", "ids", "one_value_plus_nan", "two_values"]
 
@@ -79,6 +80,20 @@ def quant_column(rng, n, flavour=None, nan_share=None):
         x = 202300.0 + rng.integers(1, 13, n).astype(float)
     elif flavour == "halfint":
         x = rng.integers(0, 12, n).astype(float) / 2
+    elif flavour == "dominant":
+        # one dominant value with a rare lower tail and an even rarer upper tail
+        x = np.zeros(n)
+        share = pick(rng, [0.8, 0.9, 0.93, 0.96])
+        u = rng.random(n)
+        lo = u < (1 - share) * 0.6
+        hi = (~lo) & (u < (1 - share))
+        x[lo] = -rng.lognormal(0, 1, int(lo.sum())) - 0.1
+        x[hi] = rng.lognormal(0, 1, int(hi.sum())) + 0.1
+    elif flavour == "epoch":
+        # timestamps one minute apart: boundaries share their first 7-8 significant digits
+        x = 1.7e9 + rng.integers(0, 40, n).astype(float) * 60
+    elif flavour == "close10":
+        x = 1e9 + rng.integers(0, 25, n).astype(float)
     elif flavour == "constant":
         x = np.full(n, float(rng.integers(-3, 4)))
     elif flavour == "allnan":
@@ -381,6 +396,8 @@ def single_feature_case(rng, ftype=None, kind=None, n=None, exact=True, with_dev
             x = 202301.0 + codes
         elif quant_flavour == "bigmag":
             x = 1e15 + codes * 1e11
+        elif quant_flavour == "epoch":
+            x = 1.7e9 + codes * 60.0
         elif quant_flavour == "jitter":  # continuous inside each latent bucket
             x = codes + rng.random(n) * 0.9
         else:
@@ -434,10 +451,37 @@ def single_feature_case(rng, ftype=None, kind=None, n=None, exact=True, with_dev
 
 def make_dev(rng, c, lat, k, levels, mode=None):
     """Dev sample for a single-feature case: same distribution / bootstrap / modality missing / inversion / NaN only in dev."""
-    mode = mode or pick(rng, ["same", "same", "bootstrap", "missing_mod", "inversion", "small", "identical"])
+    mode = mode or pick(rng, ["same", "same", "bootstrap", "missing_mod", "inversion", "small", "identical", "exact_tie", "exact_tie"])
     n = len(c.X)
     f = c.features[0]
-    if mode == "identical":
+    if mode == "exact_tie" and k >= 2:
+        # dev built from exact counts: two adjacent latent buckets get exactly the same rate on dev only
+        lv = list(levels)
+        j = int(rng.integers(0, k - 1))
+        lv[j + 1] = lv[j]
+        rows = []
+        ys = []
+        for cd in list(range(k)) + [-1]:
+            src = np.where(lat == cd)[0]
+            if len(src) == 0:
+                continue
+            m = int(pick(rng, [10, 20, 20, 40]))
+            take = rng.choice(src, m, replace=True)
+            rows.append(take)
+            lvl = lv[cd if cd >= 0 else k]
+            if c.kind == "binary":
+                yy = np.zeros(m, int)
+                yy[: int(round(lvl * m))] = 1
+            else:
+                yy = np.tile(np.arange(5), m // 5 + 1)[:m] + float(lvl)
+            ys.append(yy)
+        take = np.concatenate(rows)
+        yd = np.concatenate(ys)
+        if c.kind == "binary" and yd.min() == yd.max():
+            yd[0] = 1 - yd[0]
+        c.X_dev = c.X.iloc[take].reset_index(drop=True)
+        c.y_dev = pd.Series(yd)
+    elif mode == "identical":
         c.X_dev = c.X.copy()
         c.y_dev = c.y.copy()
     else:
@@ -503,7 +547,7 @@ def multi_feature_case(rng, kind=None, n=None, n_feat=None, hostile=False, degen
         if ftype == "quant":
             pool = QUANT_FLAVOURS + (QUANT_DEGENERATE if degenerate else [])
             flav = pick(rng, pool)
-            if not hostile and flav in ("bigmag", "close4"):
+            if not hostile and flav in ("bigmag", "close4", "epoch", "close10"):
                 flav = "normal"
             x, meta = quant_column(rng, n, flav)
             codes, kk = codes_from_quant(x)
